@@ -395,6 +395,7 @@ class WorkTree:
         fs_paths = list(fs_paths)
 
         from .index import (
+            ConflictedIndexEntry,
             _fs_to_tree_path,
             blob_from_path_and_stat,
             index_entry_from_directory,
@@ -403,6 +404,12 @@ class WorkTree:
 
         index = self._repo.open_index(config=config)
         blob_normalizer = self._repo.get_blob_normalizer(config=config)
+        # What the file system cannot tell is kept from the entry that is
+        # already there, as git does (ce_mode_from_stat): the executable bit
+        # when core.filemode is false, a link that core.symlinks=false
+        # checked out as a plain file.
+        honor_filemode = config.get_boolean(b"core", b"filemode", os.name != "nt")
+        honor_symlinks = config.get_boolean(b"core", b"symlinks", True)
         for fs_path in fs_paths:
             if not isinstance(fs_path, bytes):
                 fs_path = os.fsencode(fs_path)
@@ -440,7 +447,29 @@ class WorkTree:
                     blob = blob_from_path_and_stat(full_path, st)
                     blob = blob_normalizer.checkin_normalize(blob, fs_path)
                     self._repo.object_store.add_object(blob)
-                    index[tree_path] = index_entry_from_stat(st, blob.id)
+                    mode = None
+                    if stat.S_ISREG(st.st_mode) and not (
+                        honor_filemode and honor_symlinks
+                    ):
+                        try:
+                            old_entry = index[tree_path]
+                        except KeyError:
+                            old_entry = None
+                        if isinstance(old_entry, ConflictedIndexEntry):
+                            old_entry = old_entry.this  # "ours", like git
+                        old_mode = None if old_entry is None else old_entry.mode
+                        if (
+                            not honor_symlinks
+                            and old_mode is not None
+                            and stat.S_ISLNK(old_mode)
+                        ):
+                            mode = old_mode
+                        elif not honor_filemode:
+                            if old_mode is not None and stat.S_ISREG(old_mode):
+                                mode = old_mode
+                            else:
+                                mode = stat.S_IFREG | 0o644
+                    index[tree_path] = index_entry_from_stat(st, blob.id, mode=mode)
         index.write()
 
     def unstage(
